@@ -909,7 +909,7 @@ static int ec_make(char *loc, char *cmd, char *arg, char *txt)
 		return 1;
 	if (!(target = ex_pathexpand(arg, 0)))
 		return 1;
-	sprintf(make, "make %s", target);
+	snprintf(make, sizeof(make), "make %s", target);
 	ex_print(NULL);
 	if (cmd_exec(make))
 		return 1;
